@@ -122,7 +122,7 @@ def kw_lemma(words):
 def main():
     kw('group'); kw('all'); kw('clear'); kw('disable'); kw('enable')
     out = ['# >>> generated by tools/gen_defs.py (oracle table there) - do not edit by hand']
-    words = ['list', 'tagtypes']
+    words = ['list', 'tagtypes', 'seekcur']
     for c in T:
         line = lit(c['word'])
         for a in c['args']:
